@@ -305,16 +305,20 @@ func (r *Resolver) VisitGrouping(expr *ast.Grouping) ast.VisitResult {
 }
 
 func (r *Resolver) VisitFuncCall(expr *ast.FuncCall) ast.VisitResult {
-	// visit the passed arguments
-	for _, v := range expr.Args {
-		r.visit(v)
+	// visit the passed arguments in declaration order
+	for i := range expr.Func.Parameters {
+		if v, ok := expr.Args[expr.Func.Parameters[i].Name.Literal]; ok {
+			r.visit(v)
+		}
 	}
 	return ast.VisitRecurse
 }
 
 func (r *Resolver) VisitStructLiteral(expr *ast.StructLiteral) ast.VisitResult {
-	for _, arg := range expr.Args {
-		r.visit(arg)
+	for i := range expr.Type.Fields {
+		if arg, ok := expr.Args[expr.Type.Fields[i].Name]; ok {
+			r.visit(arg)
+		}
 	}
 	return ast.VisitRecurse
 }
